@@ -29,10 +29,36 @@ func propSpecs() map[string]*PropSpec {
 	add(&PropSpec{ID: "C02", Title: "Derived Equal is exactly structural equality", Gen: genC02,
 		Outside: []string{"NaN", "cyclic values", "imported structs with unexported fields (reflect/unsafe path)", "values larger than the bounds"}})
 	add(&PropSpec{ID: "C03", Title: "Derived Compare is a total order consistent with Equal", Gen: genC03,
+		Filter: func(in Inst, tier string) bool { return !in.Tags["userEqual"] },
+		SkipKind: func(in Inst, kind, tier string) bool {
+			// three-value transitivity over map-containing types needs minutes per query: thorough tier only
+			return tier == "quick" && kind == "trans" && in.Tags["map"]
+		},
 		Outside: []string{"NaN", "cyclic values", "reflect/unsafe path", "values larger than the bounds"}})
 	add(&PropSpec{ID: "C04", Title: "Derived Hash respects Equal", Gen: genC04,
 		Outside: []string{"NaN", "cyclic values", "reflect/unsafe path", "values larger than the bounds", "hashing across processes other than through map iteration order"}})
 	add(&PropSpec{ID: "C05", Title: "DeepCopy and Clone produce an equal, fully independent copy", Gen: genC05,
 		Outside: []string{"cyclic values", "destinations sharing memory with the source", "reflect/unsafe path"}})
+	elemInsts := func(tier string, seed int64) []Inst {
+		var out []Inst
+		for _, e := range elemCorpus(tier) {
+			out = append(out, Inst{ID: e.ID, T: e.E, Tags: e.Tags})
+		}
+		return out
+	}
+	elemGen := func(f func(g *Gen, e ElemInst, tier string) []HarnessSrc) PropGen {
+		return func(g *Gen, in Inst, tier string) []HarnessSrc {
+			for _, e := range elemCorpus(tier) {
+				if e.ID == in.ID {
+					return f(g, e, tier)
+				}
+			}
+			return nil
+		}
+	}
+	add(&PropSpec{ID: "C13", Title: "Ordering helpers: Sort, Keys, Min, Max", Gen: elemGen(genC13Elem), Corpus: elemInsts, PkgSize: 2,
+		Outside: []string{"NaN", "lists longer than the bound", "sort.Slice beyond 12 elements (different algorithm)"}})
+	add(&PropSpec{ID: "C14", Title: "Set and list helpers", Gen: elemGen(genC14Elem), Corpus: elemInsts, PkgSize: 2,
+		Outside: []string{"NaN", "lists longer than the bound"}})
 	return m
 }
